@@ -5,6 +5,7 @@
    crates/resvg/src/{render,lib,geom}.rs on every run). *)
 From RV Require Import Model.Base Model.RenderPrims Gen.Consts Gen.LeafFit Gen.LeafRender Model.Render Model.Compose.
 From RV Require Import Proofs.Render Proofs.Compose.
+From RV Require Import Model.Blend8 Model.Compose8 Proofs.Compose8.
 Local Open Scope Q_scope.
 
 (* ------------------------------------------------------------------ compositing algebra (per pixel) *)
@@ -130,3 +131,38 @@ Example C14_nv_half_alpha :
   peq (render (Grp true (1 # 2) [Draw {| pr := 1; pg := 0; pb := 0; pa := 1 |}]) clear)
       {| pr := 1 # 2; pg := 0; pb := 0; pa := 1 # 2 |}.
 Proof. unfold peq; simpl. repeat split; reflexivity. Qed.
+
+(* ------------------------------------------------------------------ extension round 4: the 8-bit layer path
+   `over8` is tiny-skia's draw_pixmap (SourceOver, opacity 1, Nearest) on premultiplied bytes - what render_group
+   composites a layer with; tied to the real tiny-skia by the exhaustive table op c14-drawpix. *)
+(* one layer composite stores the exact source-over value (the Q algebra above) rounded: within half a level *)
+Theorem C14_draw_pixmap_rounds_over : forall s d, (0 <= a8 s <= 255)%Z ->
+  close_px (1 # 2)%Q (over8 s d) (over (q8 s) (q8 d)).
+Proof. exact draw_pixmap_rounds_over. Qed.
+Print Assumptions C14_draw_pixmap_rounds_over.
+
+(* any number of additional layers around a node changes no bit (the oracle's nest modes: 0 files differ) *)
+Theorem C14_nested_isolation_exact : forall k n bg, render8 (wrap8 k n) bg = render8 n bg.
+Proof. exact wrap8_exact. Qed.
+Print Assumptions C14_nested_isolation_exact.
+
+(* n draws painted directly vs through a layer: every channel within (3n - 1) / 2 levels, for all byte inputs.
+   n = 1: exact (the integer part of 1); n = 2: 2 levels - attained, see C14_quantisation_two_attained, so the
+   property text's "+-1" does not hold for overlapping translucent children of an isolated group *)
+Theorem C14_quantisation : forall ds bg, Forall byte_px8 ds -> byte_px8 bg -> ds <> [] ->
+  (2 * dist8 (paint8 ds bg) (over8 (paint8 ds clear8) bg) <= 3 * Z.of_nat (length ds) - 1)%Z.
+Proof. exact quantisation. Qed.
+Print Assumptions C14_quantisation.
+
+Theorem C14_single_draw_layer_exact : forall d bg, over8 (paint8 [d] clear8) bg = paint8 [d] bg.
+Proof. exact single_draw_exact. Qed.
+Print Assumptions C14_single_draw_layer_exact.
+
+(* the bound is tight at n = 2: two translucent greys over a light background differ by 2 levels *)
+Example C14_quantisation_two_attained :
+  let d1 := {| r8 := 21; g8 := 21; b8 := 21; a8 := 30 |} in
+  let d2 := {| r8 := 45; g8 := 45; b8 := 45; a8 := 115 |} in
+  let bg := {| r8 := 252; g8 := 252; b8 := 252; a8 := 255 |} in
+  r8 (paint8 [d1; d2] bg) = 178%Z /\ r8 (over8 (paint8 [d1; d2] clear8) bg) = 180%Z /\
+  dist8 (paint8 [d1; d2] bg) (over8 (paint8 [d1; d2] clear8) bg) = 2%Z.
+Proof. cbv zeta. split; [|split]; vm_compute; reflexivity. Qed.
